@@ -25,6 +25,7 @@ import (
 	"github.com/mycoria/mycoria/m"
 
 	"verif/core"
+	"verif/ids"
 	"verif/vnet"
 )
 
@@ -230,7 +231,12 @@ func c09Push(c *core.Case, ms *mesh, i, j int, rte *m.RoutingTableEntry) {
 	if len(vn.Queue) != 0 {
 		c.Fatalf("internal: queue not empty before push test")
 	}
-	block := slices.Clone(rte.Path.ForwardBlock)
+	// The statement claims the forward labels only. Announcements are flooded on
+	// all links with the return label of one of them, so a route's return
+	// labels (and with them the computed block size) may belong to another link
+	// of the destination; the probe therefore carries the forward labels in a
+	// block with room for return labels of any size.
+	block := append(slices.Clone(rte.Path.ForwardBlock), make([]byte, 3*len(rte.Path.Hops)+2)...)
 	first, err := m.NextRotateSwitchBlock(block, 0)
 	if err != nil {
 		c.Fatalf("route n%d->n%d: rotating the forward block at the origin: %v", i, j, err)
@@ -329,4 +335,81 @@ func TestC09(t *testing.T) {
 		}
 		c09Case(c, maxN)
 	})
+}
+
+// TestC09ExhaustiveSchedules enumerates every delivery order of the first K
+// deliveries (the rest FIFO) for tiny meshes.
+func TestC09ExhaustiveSchedules(t *testing.T) {
+	type cfg struct {
+		name  string
+		topo  meshTopo
+		depth int
+	}
+	d := func(quick, thorough int) int {
+		if core.Thorough() {
+			return thorough
+		}
+		return quick
+	}
+	cfgs := []cfg{
+		{"line2", meshTopo{family: "line", n: 2, edges: [][2]int{{0, 1}}}, 8},
+		{"line3", meshTopo{family: "line", n: 3, edges: [][2]int{{0, 1}, {1, 2}}}, d(4, 6)},
+		{"triangle", meshTopo{family: "complete", n: 3, edges: [][2]int{{0, 1}, {1, 2}, {0, 2}}}, d(2, 4)},
+		{"star4", meshTopo{family: "star", n: 4, edges: [][2]int{{0, 1}, {0, 2}, {0, 3}}}, d(2, 4)},
+	}
+	for _, cf := range cfgs {
+		cf := cf
+		t.Run(cf.name, func(t *testing.T) {
+			core.Exhaust(t, c09Opts, 600_000, func(c *core.Case) {
+				// Fixed mesh (no draws): identities and labels by position.
+				ms := &mesh{vn: vnet.New(), topo: cf.topo, idx: map[netip.Addr]int{}}
+				pool := ids.Group("eu")
+				for i := 0; i < cf.topo.n; i++ {
+					n, err := ms.vn.AddNode(fmt.Sprintf("n%d", i), pool[i], vnet.NodeOpts{})
+					if err != nil {
+						c.Fatalf("node: %v", err)
+					}
+					ms.nodes = append(ms.nodes, n)
+					ms.idx[n.IP()] = i
+					ms.labelTo = append(ms.labelTo, map[m.SwitchLabel]int{})
+				}
+				for k, e := range cf.topo.edges {
+					la, lb := m.SwitchLabel(10+2*k), m.SwitchLabel(200+2*k)
+					ms.labelTo[e[0]][la], ms.labelTo[e[1]][lb] = e[1], e[0]
+					if _, _, err := ms.vn.Connect(ms.nodes[e[0]], ms.nodes[e[1]], vnet.LinkOpts{LabelA: la, LabelB: lb, LatA: 5, LatB: 7}); err != nil {
+						c.Fatalf("connect: %v", err)
+					}
+				}
+				for _, n := range ms.nodes {
+					if err := n.Rtr.VerifAnnounce(); err != nil {
+						c.Fatalf("announce: %v", err)
+					}
+				}
+				seenPath, perAnn, bound := map[string]bool{}, map[string]int{}, map[int]int{}
+				var order []int
+				for step := 0; len(ms.vn.Queue) > 0; step++ {
+					i := 0
+					if step < cf.depth && len(ms.vn.Queue) > 1 {
+						i = c.Pick("pick", len(ms.vn.Queue))
+					}
+					order = append(order, i)
+					fl := ms.vn.Queue[i]
+					if an := parseAnnouncement(fl.Data); an != nil {
+						c09Hygiene(c, ms, fl, an, seenPath, perAnn, bound)
+					}
+					if _, r := ms.vn.Deliver(i); r.Panicked {
+						c.Fatalf("panic: %v", ms.vn.Panics)
+					}
+					if step > 5000 {
+						c.Fatalf("flood does not terminate")
+					}
+				}
+				c.Note("schedule %v", order)
+				c09Reach(c, ms, true)
+				c.Eval(fmt.Sprintf("%s|%v", cf.name, order), cf.topo.hasCycle() || cf.topo.n >= 3, func() any {
+					return map[string]any{"topology": cf.topo.String(), "schedule_prefix": fmt.Sprint(order[:min(len(order), cf.depth)])}
+				})
+			})
+		})
+	}
 }
